@@ -218,6 +218,39 @@ def oracle(p):
             return [[r[0]] for r in spv], [[r[0]] * D for r in spv]
         return [list(r) for r in spv], spv  # batch
 
+    # --- FlowFields.curl / FlowField.curl: vectors given in GRID / CUBE / CUBE_CORNERS / WORLD axes that are an affine function of
+    #     the grid point coordinates in those axes; default spacing = distance of neighbouring grid points in those axes
+    if p.get("stage", "all") in ("all", "edge"):
+        from deepali.core.grid import Axes, Grid
+        from deepali.data.flow import FlowField, FlowFields
+        for D in (2, 3):
+            for ax in Axes:
+                for ac in (True, False):
+                    for mode in (None, "central", "sobel"):
+                        size = tuple(rng.randint(5, 7) for _ in range(D))
+                        grids = [Grid(size=size, spacing=tuple(rng.choice([0.5, 1.0, 2.0, 0.25]) for _ in range(D)), align_corners=ac) for _ in range(2)]
+                        A = torch.tensor([[dy(rng) for _ in range(D)] for _ in range(D)], dtype=torch.float64)
+                        pts = torch.stack([g.points(ax).double() for g in grids], 0)          # (N, ..., X, D)
+                        u = (torch.einsum("ik,n...k->n...i", A, pts) + 0.5).movedim(-1, 1)
+                        want = [float(A[1, 0] - A[0, 1])] if D == 2 else [float(A[2, 1] - A[1, 2]), float(A[0, 2] - A[2, 0]), float(A[1, 0] - A[0, 1])]
+                        desc = {"D": D, "axes": ax.name, "align_corners": ac, "mode": mode, "size": list(size), "spacing": [g.spacing().tolist() for g in grids]}
+                        bump(f"FlowFields.curl:{ax.name}:D{D}")
+                        try:
+                            ff = FlowFields(u, grids, ax)
+                            rot = ff.curl(mode=mode)
+                            t = rot.tensor()
+                            M = exact_mask(mode or "forward_central_backward", tuple(reversed(size)), list(range(D)), False)
+                            if tuple(t.shape) != (2, len(want)) + tuple(reversed(size)):
+                                fail(f"C12:FlowFields.curl:{ax.name}:D{D}:shape", f"{desc}: result shape {tuple(t.shape)}", case=desc)
+                            elif any(float((t[:, j] - wv).abs()[:, M].max()) > 1e-5 * (1 + abs(wv)) for j, wv in enumerate(want)):
+                                fail(f"C12:FlowFields.curl:{ax.name}:D{D}", f"{desc}: curl of an affine field (in its own axes) differs from the analytic rotation {want}",
+                                     case=desc, A=A.tolist())
+                            one = FlowField(u[0], grids[0], ax).curl(mode=mode).tensor()
+                            if tuple(one.shape) != tuple(t.shape[1:]) or float((one - t[0]).abs().max()) > 1e-9:
+                                fail(f"C12:FlowField.curl:{ax.name}:D{D}", f"{desc}: FlowField.curl differs from item 0 of FlowFields.curl", case=desc)
+                        except Exception as e:  # noqa
+                            fail(f"C12:FlowFields.curl:{ax.name}:D{D}:raises", f"{desc}: {type(e).__name__}: {str(e)[:140]}", case=desc)
+
     # --- integer data: the spacing keeps its fractional value (the data are cast to float, not the spacing to int)
     if p.get("stage", "all") in ("all", "edge"):
         for dt in (torch.int64, torch.int32, torch.uint8, torch.int16):
